@@ -138,7 +138,7 @@ theorem block_spec (c : Cfg) (p : Frame → Bool) (d : Nat) (s : St) (evs : List
       rw [visible_cons_lt es hlt']
       split
       · rename_i he
-        have he' : e.frames = [] := by simpa using he
+        have he' : e.frames = [] := by have h0 := he; simp at h0; exact h0.1
         have hq2 : findSplit p (s.absorb c e).queue = none := by rw [hq1, he']; simpa using hq
         obtain ⟨i1, i2, i3⟩ := ih (s.absorb c e) hq2 hc1 hd.tail
         refine ⟨by rw [i1, hq1, he']; simp, i2, ?_⟩
